@@ -71,36 +71,54 @@ def sched_of(rj):
             "free": bool(h.get("free")), "origin": h.get("origin", "")}
 
 
+def par(jobs):
+    """Run independent TLC jobs side by side (each gets its own scratch dir; starts are staggered
+    because Ctx.tlc numbers its scratch dirs with a plain counter)."""
+    import time
+    from concurrent.futures import ThreadPoolExecutor
+    with ThreadPoolExecutor(len(jobs)) as ex:
+        futs = []
+        for fn in jobs:
+            futs.append(ex.submit(fn))
+            time.sleep(0.5)
+        return [f.result() for f in futs]
+
+
 def must_violate(ctx, cfg, what, allowed):
-    r = ctx.tlc("PlayerRegistryImpl", cfg, allow_violation=True, count=False)
+    r = ctx.tlc("PlayerRegistryImpl", cfg, allow_violation=True, count=False, workers=2, heap="2g")
     if r.violated not in allowed:
         raise vlib.ToolError("%s: expected a violation of %s, got %s" % (cfg, allowed, r.violated))
     ctx.log("PlayerRegistryImpl (%s): violates %s (non-vacuity ok)" % (what, r.violated))
     return r.violated
 
 
-def run(ctx):
-    r = ctx.tlc("PlayerRegistryImpl", ctx.pick("PlayerRegistryImpl_quick.cfg", "PlayerRegistryImpl_full.cfg"),
-                timeout=1500)
-    mc_states = r.distinct
-    ctx.log("PlayerRegistryImpl (muP respected): %d distinct states, invariants hold" % r.distinct)
-    nonvac = {
-        "lock_ignored": must_violate(ctx, "PlayerRegistryImpl_unlocked.cfg", "lock ignored",
-                                     ("FindableById", "FindableByName", "OnePerId", "OnePerName", "SameSet")),
-        "unregister_by_key": must_violate(ctx, "PlayerRegistryImpl_noptr.cfg", "unregister deletes by key",
-                                          ("FindableById", "FindableByName", "SameSet")),
-        "lock_leak": must_violate(ctx, "PlayerRegistryImpl_leak.cfg", "muP kept on the duplicate path", ("NoHang",)),
-    }
-    r = ctx.tlc("PlayerRegistry", ctx.pick("PlayerRegistry_quick.cfg", "PlayerRegistry.cfg"))
-    mc_states += r.distinct
-    ctx.log("PlayerRegistry (abstract acceptor): %d distinct states, invariants hold" % r.distinct)
+def replay(ctx):
+    """bin/vcheck C11 quick --replay <evidence/replay/C11/x.json>: force that one schedule again."""
+    rj = json.load(open(ctx.replay))["replay"]
+    s = sched_of(rj)
+    with open(ctx.path("sched.json"), "w") as fh:
+        json.dump([s] * (10 if s["free"] else 3), fh)
+    ctx.harness("./c11", "TestSchedules", timeout=600, env={"VERIF_RANDOM": 0, "VERIF_FREE": 0, "VERIF_HUNG_MS": 6000})
+    recs = vlib.read_ndjson(ctx.path("trace.ndjson"))
+    rejected, matched, tstates = ctx.validate_runs("PlayerRegistry_Trace", recs, dfs=True)
+    for r in rejected:
+        ctx.finding(key_of(r), "replayed schedule rejected again (first unexplained event: %s)"
+                    % json.dumps(r["bad"]), r)
+    return ctx.finish("model_checking", {"states": tstates, "samples": [s], "evaluations": len(recs),
+                                         "distinct_nontrivial": 2, "rule": "replay of one recorded schedule",
+                                         "trace_events_validated": matched, "exhaustive": False}, ["replay run"])
 
-    # ---- schedules
+
+def run(ctx):
+    if ctx.replay:
+        return replay(ctx)
+
     def export(cfg, origin, simulate=None, depth=None, limit=None):
         kw = {}
         if simulate:
             kw = dict(simulate=simulate, depth=depth)
-        res = ctx.tlc("PlayerRegistryImpl", cfg, workers=1, count=False, timeout=1500, **kw).printed_json("SCHED")
+        res = ctx.tlc("PlayerRegistryImpl", cfg, workers=1, count=False, timeout=1500, heap="3g",
+                      **kw).printed_json("SCHED")
         if limit and len(res) > limit:
             random.Random(ctx.seed).shuffle(res)
             res = res[:limit]
@@ -108,15 +126,30 @@ def run(ctx):
             s["origin"] = origin
         return res
 
-    if ctx.quick:
-        s2 = export("PlayerRegistryImpl_sched2.cfg", "tlc-locked", simulate=160, depth=19)
-        exhaustive2 = False
-    else:
-        s2 = export("PlayerRegistryImpl_sched2.cfg", "tlc-locked", limit=8000)
-        exhaustive2 = True
-    s2u = export("PlayerRegistryImpl_sched2u.cfg", "tlc-unlocked", simulate=ctx.pick(40, 1200), depth=19)
-    s3 = export("PlayerRegistryImpl_sched3.cfg", "tlc-locked", simulate=ctx.pick(80, 3000), depth=28)
-    s3u = [] if ctx.quick else export("PlayerRegistryImpl_sched3u.cfg", "tlc-unlocked", simulate=400, depth=28)
+    exhaustive2 = not ctx.quick
+    jobs = [
+        lambda: ctx.tlc("PlayerRegistryImpl", ctx.pick("PlayerRegistryImpl_quick.cfg", "PlayerRegistryImpl_full.cfg"),
+                        timeout=1500, count=False, workers=ctx.pick(4, 8), heap="6g"),
+        lambda: must_violate(ctx, "PlayerRegistryImpl_unlocked.cfg", "lock ignored",
+                             ("FindableById", "FindableByName", "OnePerId", "OnePerName", "SameSet")),
+        lambda: must_violate(ctx, "PlayerRegistryImpl_noptr.cfg", "unregister deletes by key",
+                             ("FindableById", "FindableByName", "SameSet")),
+        lambda: must_violate(ctx, "PlayerRegistryImpl_leak.cfg", "muP kept on the duplicate path", ("NoHang",)),
+        lambda: ctx.tlc("PlayerRegistry", ctx.pick("PlayerRegistry_quick.cfg", "PlayerRegistry.cfg"), count=False,
+                        workers=ctx.pick(2, 4), heap="3g"),
+        (lambda: export("PlayerRegistryImpl_sched2.cfg", "tlc-locked", simulate=160, depth=19)) if ctx.quick else
+        (lambda: export("PlayerRegistryImpl_sched2.cfg", "tlc-locked", limit=8000)),
+        lambda: export("PlayerRegistryImpl_sched2u.cfg", "tlc-unlocked", simulate=ctx.pick(40, 1200), depth=19),
+        lambda: export("PlayerRegistryImpl_sched3.cfg", "tlc-locked", simulate=ctx.pick(80, 3000), depth=28),
+        lambda: [] if ctx.quick else export("PlayerRegistryImpl_sched3u.cfg", "tlc-unlocked", simulate=400, depth=28),
+    ]
+    rimpl, nv1, nv2, nv3, rabs, s2, s2u, s3, s3u = par(jobs)
+    ctx.states += rimpl.distinct + rabs.distinct
+    ctx.transitions += rimpl.generated + rabs.generated
+    mc_states = rimpl.distinct + rabs.distinct
+    ctx.log("PlayerRegistryImpl (muP respected): %d distinct states, invariants hold" % rimpl.distinct)
+    ctx.log("PlayerRegistry (abstract acceptor): %d distinct states, invariants hold" % rabs.distinct)
+    nonvac = {"lock_ignored": nv1, "unregister_by_key": nv2, "lock_leak": nv3}
     scheds = s2 + s2u + s3 + s3u
     ctx.log("schedules: %d two-connection%s + %d lock-ignoring + %d three-connection + %d lock-ignoring"
             % (len(s2), " (exhaustive, shuffled, capped)" if exhaustive2 else " (sampled)", len(s2u), len(s3), len(s3u)))
